@@ -1,18 +1,45 @@
 """C06 - WSGI, ASGI and the test client are observationally equivalent."""
 PROP = 'C06'
-LEAN_MODULES = ['FalconModel.FinalizeProofs', 'FalconModel.FinalizeProofs2']
-DRIVERS = ['fzdriver']
+LEAN_MODULES = ['FalconModel.FinalizeProofs', 'FalconModel.FinalizeProofs2', 'FalconModel.WireProofs']
+DRIVERS = ['fzdriver', 'wrdriver']
 THEOREMS = [
     # response side: the two finalization tails agree on every response state (relational theorem) ...
     'Fz.wsgi_asgi_agree',
     # ... and therefore every single-stack statement of C05 transfers (proved *through* the agreement theorem)
     'Fz.asgi_bodiless_no_payload', 'Fz.asgi_content_length_exact', 'Fz.asgi_body_precedence',
+    # request side (Wire.lean): one wire-level header list, the PEP 3333 environ and the ASGI scope built from it, falcon's two header stores
+    'Wr.header_lookup_agree', 'Wr.singleton_exclusion_exact', 'Wr.headers_agree', 'Wr.wsgi_headers_upper',
+    'Wr.content_type_agree', 'Wr.content_length_raw_agree', 'Wr.content_length_agree',
+    'Wr.wsgi_lookup_case_insensitive', 'Wr.asgi_lookup_case_insensitive', 'Wr.wsgi_lookup_upper_lower', 'Wr.asgi_lookup_upper_lower',
+    # the canonical form both stores are reduced to, closed forms ("which value wins"), the name cache
+    'Wr.environ_canonical', 'Wr.store_canonical', 'Wr.wsgiGet_canonical', 'Wr.asgi_store_closed_form', 'Wr.canon_closed_form',
+    'Wr.cachedName_transparent', 'Wr.asgiGetC_eq',
+    # the exclusions of the domain are necessary (witnesses)
+    'Wr.repeated_singleton_witness', 'Wr.underscore_wire_name_witness', 'Wr.underscore_lookup_name_witness', 'Wr.non_ascii_lookup_name_witness',
+    'Wr.content_length_nbsp_witness',
 ]
 STATEMENTS = {
     'Fz.wsgi_asgi_agree': 'for every response state (status, text, data, rendered media, stream kind/chunks/failing call, header dict in insertion order, cookies) and configuration (HEAD, default media type, file_wrapper): falcon.App.__call__ and falcon.asgi.App.__call__ hand the server the same status, the same header list in the same order, the same payload bytes and propagate a stream failure identically',
     'Fz.asgi_body_precedence': 'the ASGI payload obeys the same precedence text > data > media > stream as the WSGI one (corollary of the agreement theorem)',
     'Fz.asgi_content_length_exact': 'the ASGI Content-Length is exact under the same conditions as the WSGI one (corollary)',
     'Fz.asgi_bodiless_no_payload': 'HEAD / 1xx / 204 / 304 carry no payload on ASGI either (corollary)',
+    'Wr.header_lookup_agree': 'for every wire-level list of field lines (any length, names in any case, repeats, empty values) whose names are ASCII without "_" and in which no singleton header (Content-Length, Content-Type, Cookie, Expect, From, Host, Max-Forwards, Referer, User-Agent) is repeated, for every looked-up name (ASCII without "_", any case) and every required= / default=: falcon.Request(environ built by a PEP 3333 server).get_header(name, ...) and falcon.asgi.Request(scope built by an ASGI server).get_header(name, ...) return the same value, the same default, or both raise HTTPMissingHeader',
+    'Wr.singleton_exclusion_exact': 'for every header list with ASCII "_"-free names: the two get_header agree on every name IF AND ONLY IF no singleton header is repeated (a repeated singleton is comma-joined by the PEP 3333 server and reduced to its last field line by falcon.asgi.Request, and the join is strictly longer)',
+    'Wr.headers_agree': 'on the same domain WSGI req.headers_lower and ASGI req.headers (= headers_lower) are the same list of items, in the same iteration order: lower-cased names in order of first occurrence, repeated field lines comma-joined',
+    'Wr.wsgi_headers_upper': 'WSGI req.headers is that mapping with upper-cased names (the documented per-interface difference), for every header list with ASCII "_"-free names',
+    'Wr.content_type_agree': 'req.content_type (env["CONTENT_TYPE"] vs _asgi_headers[b"content-type"], both method branches of the ASGI constructor) is the same',
+    'Wr.content_length_agree': 'req.content_length is the same (absent / the number / HTTPInvalidHeader) although WSGI tests for the empty value first and parses int(str) while ASGI parses int(bytes) and tests for the empty value in the except branch - provided the Content-Length value contains none of the code points FS GS RS US NEL NBSP that only str.strip() removes',
+    'Wr.content_length_nbsp_witness': 'that proviso is necessary: Content-Length "\\xa05" is 5 on WSGI and HTTPInvalidHeader on ASGI (a server rejects such a request itself)',
+    'Wr.wsgi_lookup_case_insensitive': 'for EVERY environ dict: two ASCII names that differ only in case give the same get_header result on WSGI',
+    'Wr.asgi_lookup_case_insensitive': 'for every _asgi_headers dict: two names with the same lower() give the same get_header result on ASGI',
+    'Wr.environ_canonical': 'for every header list with ASCII "_"-free names the PEP 3333 environ is: the fixed CGI/wsgi.* keys, then one key per distinct header name in order of first occurrence (HTTP_<NAME> or CONTENT_TYPE/CONTENT_LENGTH) holding the comma-joined values, then wsgi.file_wrapper',
+    'Wr.store_canonical': 'for every header list (any names) in which no singleton is repeated, falcon.asgi.Request._asgi_headers is the canonical mapping lower-cased name -> comma-joined values',
+    'Wr.asgi_store_closed_form': 'for EVERY header list: _asgi_headers[k] is the value of the LAST field line named k if k is a singleton header, the comma-join of all field lines named k otherwise',
+    'Wr.cachedName_transparent': 'the _name_cache kwarg dict of the ASGI get_header is transparent: under the invariant "every entry maps a name to name.lower().encode()" (true of the empty cache, preserved by every call) the cached key equals the computed one, and the cache never grows beyond max(its size, 64)',
+    'Wr.repeated_singleton_witness': 'Host: a + host: b gives get_header("Host") == "a,b" on WSGI and "b" on ASGI (the names are fine, only the singleton rule is violated)',
+    'Wr.underscore_wire_name_witness': 'X_A: 1 + X-A: 2 gives get_header("X-A") == "1,2" on WSGI and "2" on ASGI',
+    'Wr.underscore_lookup_name_witness': 'for the well-formed request X-A: 1, get_header("X_A") is "1" on WSGI and None on ASGI',
+    'Wr.non_ascii_lookup_name_witness': 'for the well-formed request SS: 1, get_header("\\xdf") is "1" on WSGI ("\\xdf".upper() == "SS") and None on ASGI',
 }
 TRUSTED = [
     'harness/lib_http.py: the spec-faithful WSGI and ASGI drivers (written from PEP 3333 / RFC 3875 and the ASGI HTTP spec) are what "a server" means',
@@ -30,9 +57,14 @@ RULE = ('random wire-level requests: method x path from 0-4 segments (plain, per
         'Host forms (name, name:port, IPv6, absent on HTTP/1.0, invalid port) x body (empty, JSON valid/invalid, urlencoded form, binary) with matching Content-Length or a malformed Content-Length on an empty body x '
         'scheme x server address x client address x root_path x request options (strip_url_path_trailing_slash, keep_blank_qs_values, auto_parse_qs_csv) x body access mode (read, sized reads, iterate, get_media, none) x '
         'C05 response plans (without SSE). Each case is run four times: spec WSGI driver, spec ASGI driver (random event chunking, optional keys omitted), falcon.testing.simulate_request on the WSGI app and on the ASGI app. '
-        'non-trivial = at least one header besides Host/User-Agent or a query or a body; distinct = distinct (wire request, options, plan)')
-PARTIAL = ('The Lean theorems cover the response side (finalization of any response state is identical on both stacks). Request-side equivalence (about 75 request attributes/getters, body, media) and the '
-           'equivalence of falcon.testing.simulate_request with the spec-faithful drivers rest on the differential comparison only (translation-validation strength, not proof).')
+        'non-trivial = at least one header besides Host/User-Agent or a query or a body; distinct = distinct (wire request, options, plan). '
+        'Header-store cases (second correspondence): 0-8 field lines drawn with repeats from a per-case pool of singleton / non-singleton / look-alike (Content-Typ, Http-Content-Type, SS) / "_" names in random '
+        'per-character case, values incl. empty, latin-1, commas, Content-Length grammars (signs, underscores, NBSP); 60 % repaired into the theorem domain (singletons once, no "_"); 2-8 looked-up names per case '
+        '(present names re-cased, "-"/"_" swapped, absent, latin-1 such as "\xdf"), each with get_header(n), (n, default=), (n, required=True); environ / scope built by lib_http, '
+        'falcon.Request / falcon.asgi.Request constructed directly; non-trivial = at least two field lines')
+PARTIAL = ('The Lean theorems cover the response side (finalization of any response state is identical on both stacks) and, on the request side, the header stores: get_header, headers / headers_lower, '
+           'content_type, content_length agree for every header list of the domain (Wr.*). The remaining request attributes (path, query parameters, host/port/scheme/URL parts, forwarding, typed header accessors, '
+           'cookies, body, media) and the equivalence of falcon.testing.simulate_request with the spec-faithful drivers rest on the differential comparison only (translation-validation strength, not proof).')
 JOBS = {'quick': 4, 'thorough': 16}
 
 SINGLETONS = ('content-length', 'content-type', 'cookie', 'expect', 'from', 'host', 'max-forwards', 'referer', 'user-agent')
@@ -492,13 +524,171 @@ def run(ctx):
         if ci < 1:
             ctx.sample({'case': case, 'what_the_responder_saw (identical on all four paths)': dw, 'response (identical)': rw})
     sess.finish()
+    header_lookup_part(ctx, rnd, falcon, H, json)
     loop.close()
 
 
+# ---------------------------------------------------------------------- request side: the two header stores vs the Wr model
+H_SINGLE = ['Content-Type', 'Content-Length', 'Cookie', 'Expect', 'From', 'Host', 'Max-Forwards', 'Referer', 'User-Agent']
+H_MULTI = ['Accept', 'X-Custom', 'X-A', 'Forwarded', 'Accept-Language', 'If-Match', 'X-Forwarded-For', 'Via', 'SS', 'S', 'Http-Content-Type',
+           'Content-Typ', 'Content-Type-X', 'Content', "X!#$%&'*+.^`|~9", 'A', 'X-', '-', 'Http-Host', 'Cookie2']
+H_UNDERSCORE = ['X_Custom', 'X_A', 'Content_Type', 'Content_Length', 'User_Agent', '_', 'X-Custom_', 'Http_Host']
+H_VALUES = ['', '', 'a', 'b', 'a, b', 'text/html', 'application/json', 'v\xe9', '\xff', 'x=1; y=2', '12', '0', ',', 'a b', '*/*']
+H_CL_VALUES = ['12', '0', '', 'x', '-1', '1_0', '+5', '007', '1__0', '99999999999999999999', ' 7', '7\t', '\xa05', '5\x85', '\x1c5', '-0', '1 2', '\xb2']
+H_LOOKUPS = ['Content-Type', 'CONTENT-LENGTH', 'content-length', 'Content_Type', 'CONTENT_LENGTH', 'X-Missing', 'Host', 'accept', 'Http-Content-Type',
+             'HTTP_CONTENT_TYPE', '\xdf', 'SS', 'ss', '\xb5', '\xff', '\xc9', '\xe9', '', 'X-Custom', 'x_custom', 'User-Agent', 'Cookie']
+H_EXOTIC = set('\x85\xa0')  # what int(str) skips and int(bytes) does not
+
+
+def header_lookup_part(ctx, rnd, falcon, H, json):
+    """Field lines -> (PEP 3333 environ, ASGI scope) by the spec-faithful drivers -> falcon.Request / falcon.asgi.Request;
+    get_header (3 call forms x several spellings), headers, headers_lower, content_type, content_length of the real objects
+    against the Lean model `Wr` of both views (correspondence, also OUTSIDE the domain of the theorems, where the model predicts the
+    difference), and against each other inside the domain (oracle: the statement of Wr.header_lookup_agree etc.)."""
+    import falcon.asgi
+
+    def enc(t):
+        return '.' + '.'.join(str(ord(c)) for c in t)
+
+    def enc_d(d):
+        return ';'.join(enc(k) + ':' + enc(v) for k, v in d.items()) or '-'
+
+    def res(f):
+        try:
+            v = f()
+        except falcon.HTTPMissingHeader:
+            return '!'
+        except Exception as e:  # noqa
+            return 'EXC:' + type(e).__name__
+        return '~' if v is None else (enc(v) if isinstance(v, str) else 'TYPE:' + type(v).__name__)
+
+    def cl(req):
+        try:
+            v = req.content_length
+        except falcon.HTTPInvalidHeader:
+            return 'bad'
+        except Exception as e:  # noqa
+            return 'EXC:' + type(e).__name__
+        return '~' if v is None else str(v)
+
+    def recase(n):
+        r = rnd.random()
+        if r < 0.25:
+            return n
+        if r < 0.45:
+            return n.lower()
+        if r < 0.65:
+            return n.upper()
+        return ''.join(c.upper() if rnd.random() < 0.5 else c.lower() for c in n)
+
+    async def receive():  # never awaited: no body is read
+        raise AssertionError('receive() called')
+
+    sess = ctx.session('header stores: falcon.Request(environ) and falcon.asgi.Request(scope) = Wr model (get_header, headers, headers_lower, content_type, content_length)', 'wrdriver')
+    # str.upper()/str.lower() of the model = Python's on every code point < 256
+    allc = ''.join(chr(i) for i in range(256))
+    sess.case({'selftest': 'upper/lower tables'})
+    sess.op('u ' + enc(allc), enc(allc.upper()) + '/' + enc(allc.lower()))
+    for i in range(ctx.shard[0], 256, ctx.shard[1]):
+        sess.op('u ' + enc(chr(i)), enc(chr(i).upper()) + '/' + enc(chr(i).lower()))
+
+    for ci in range(ctx.n(3000, 40000)):
+        pool = rnd.sample(H_SINGLE, rnd.randint(0, 3)) + rnd.sample(H_MULTI, rnd.randint(0, 3))
+        if rnd.random() < 0.2:
+            pool += rnd.sample(H_UNDERSCORE, rnd.randint(1, 2))
+        headers = []
+        for _ in range(rnd.randint(0, 8) if pool else 0):
+            n = rnd.choice(pool)
+            headers.append((recase(n), rnd.choice(H_CL_VALUES if n.lower().replace('_', '-') == 'content-length' else H_VALUES)))
+        if rnd.random() < 0.6:  # bring the request into the domain of the theorems: no '_' names, singletons once
+            seen, kept = set(), []
+            for n, v in headers:
+                n = n.replace('_', '-')
+                if n.lower() in SINGLETONS:
+                    if n.lower() in seen:
+                        continue
+                    seen.add(n.lower())
+                kept.append((n, v))
+            headers = kept
+        method = rnd.choice(['GET', 'GET', 'POST', 'HEAD', 'PUT'])
+        fw, has_client = rnd.random() < 0.3, rnd.random() < 0.5
+        present = [n for n, _ in headers]
+        lookups = []
+        for _ in range(rnd.randint(2, 6)):
+            r = rnd.random()
+            if present and r < 0.45:
+                lookups.append(recase(rnd.choice(present)))
+            elif present and r < 0.55:
+                n = rnd.choice(present)
+                lookups.append(recase(n.replace('-', '_') if '-' in n else n.replace('_', '-')))
+            elif r < 0.8:
+                lookups.append(rnd.choice(H_LOOKUPS))
+            else:
+                lookups.append(recase(rnd.choice(H_SINGLE + H_MULTI)))
+        for n in ('Content-Type', 'Content-Length'):
+            if rnd.random() < 0.3:
+                lookups.append(recase(n))
+
+        w = H.Wire(method, '/', headers, b'', 'http', ('localhost', 80), ('10.0.0.1', 5555) if has_client else None, '')
+        env = H.wsgi_environ(w, file_wrapper=H.FileWrapper if fw else None)
+        scope = H.asgi_scope(w)
+        case = {'wire': w.describe(), 'wsgi.file_wrapper': fw, 'lookups': lookups}
+        try:
+            wreq = falcon.Request(env)
+            areq = falcon.asgi.Request(scope, receive)
+        except Exception as e:  # noqa
+            ctx.oracle('stacks agree: header lookups on Request objects built from the spec-faithful environ / scope', False,
+                       f'constructing the Request objects raised {type(e).__name__}: {e}', case)
+            continue
+        got = {}
+        for n in lookups:
+            got[n] = ([res(lambda: wreq.get_header(n)), res(lambda: wreq.get_header(n, default='dflt')), res(lambda: wreq.get_header(n, required=True))],
+                      [res(lambda: areq.get_header(n)), res(lambda: areq.get_header(n, default='dflt')), res(lambda: areq.get_header(n, required=True))])
+        hw, hl, ha = dict(wreq.headers), dict(wreq.headers_lower), dict(areq.headers)
+        ha2 = dict(areq.headers_lower)
+        ctw, cta = wreq.content_type, areq.content_type
+        clw, cla = cl(wreq), cl(areq)
+        expect = ('g=' + ('|'.join(','.join(got[n][0]) + '/' + ','.join(got[n][1]) for n in lookups) or '-')
+                  + ' HW=' + enc_d(hw) + ' HL=' + enc_d(hl) + ' HA=' + enc_d(ha)
+                  + ' CT=' + ('~' if ctw is None else enc(ctw)) + '/' + ('~' if cta is None else enc(cta))
+                  + ' CL=' + clw + '/' + cla)
+        sess.case(case)
+        sess.op(f"h fw={int(fw)} cl={int(has_client)} m={enc(method)} hs={';'.join(enc(k) + ':' + enc(v) for k, v in headers) or '-'} q={','.join(enc(n) for n in lookups)}",
+                expect)
+
+        # ---- the property itself, inside its domain
+        def tok(n):
+            return n.isascii() and '_' not in n
+        lows = [n.lower() for n, _ in headers]
+        in_domain = all(tok(n) for n, _ in headers) and all(lows.count(x) <= 1 for x in SINGLETONS)
+        if in_domain:
+            bad = [f'get_header({n!r}): WSGI {got[n][0]} vs ASGI {got[n][1]}' for n in lookups if tok(n) and got[n][0] != got[n][1]]
+            if hl != ha or ha != ha2:
+                bad.append(f'headers_lower: WSGI {hl!r} vs ASGI {ha!r} (ASGI .headers_lower {ha2!r})')
+            if {k.lower(): v for k, v in hw.items()} != ha:
+                bad.append(f'headers (keys lower-cased): WSGI {hw!r} vs ASGI {ha!r}')
+            if ctw != cta:
+                bad.append(f'content_type: WSGI {ctw!r} vs ASGI {cta!r}')
+            if clw != cla and not any(n.lower() == 'content-length' and (set(v) & H_EXOTIC) for n, v in headers):
+                bad.append(f'content_length: WSGI {clw} vs ASGI {cla}')
+            ctx.oracle('stacks agree: header lookups on Request objects built from the spec-faithful environ / scope', not bad, '; '.join(bad) or None, case)
+            ctx.count('hdr_case_in_domain')
+        else:
+            ctx.count('hdr_case_outside_domain(repeated singleton or "_" name: model predicts the difference)')
+        if any(lows.count(x) > 1 for x in set(lows)):
+            ctx.count('hdr_case_with_repeated_name')
+        ctx.seen(json.dumps(['hdr', case], sort_keys=True, default=repr), len(headers) >= 2)
+    sess.finish()
+
+
 LEVEL_TEXT = ('Proof, partial. Machine-checked (Lean 4): the response-finalization tails of falcon.App.__call__ and falcon.asgi.App.__call__ produce the same status, header list, payload and '
-              'error propagation for every response state (wsgi_asgi_agree) - tied to the real apps by a differential correspondence driven through spec-faithful WSGI and ASGI drivers. '
-              'Request-side equivalence (what the responder sees: ~75 attributes/getters, body under every chunking, media) and the equivalence of falcon.testing.simulate_request with the '
+              'error propagation for every response state (wsgi_asgi_agree) - tied to the real apps by a differential correspondence driven through spec-faithful WSGI and ASGI drivers; '
+              'and for every wire-level header list with token names and no repeated singleton header, the PEP 3333 environ + falcon.Request and the ASGI scope + falcon.asgi.Request answer get_header (every spelling, '
+              'required=, default=), headers_lower, content_type and content_length identically (header_lookup_agree, headers_agree, content_type_agree, content_length_agree; the singleton exclusion is proved exact) - '
+              'tied to the real request classes by a second correspondence that also covers requests outside the domain. '
+              'The rest of the request side (path, query, URL parts, forwarding, typed accessors, cookies, body under every chunking, media) and the equivalence of falcon.testing.simulate_request with the '
               'spec-faithful drivers are established by differential comparison on generated wire-level requests only.')
 LEVEL_NOTE = ('Trusted: Lean kernel + standard axioms; harness/lib_http.py as the meaning of "a PEP 3333 server" / "an ASGI server"; the comparison harness. '
-              'No theorem covers the request side or falcon.testing: those rest on the differential comparison (translation-validation strength).')
-TECHNIQUE = 'Lean 4 relational theorem (WSGI tail = ASGI tail) + 4-way differential comparison: spec WSGI driver / spec ASGI driver / falcon.testing on each stack, on generated wire-level requests'
+              'On the request side the theorems cover the header stores only (model Wr: code points < 256, str.upper()/lower() tables checked against Python on every run); the other request attributes and '
+              'falcon.testing rest on the differential comparison (translation-validation strength).')
+TECHNIQUE = 'Lean 4 relational theorems (WSGI tail = ASGI tail; WSGI header store = ASGI header store via a common canonical form) + 4-way differential comparison: spec WSGI driver / spec ASGI driver / falcon.testing on each stack, on generated wire-level requests'
